@@ -26,7 +26,7 @@ def plan(tier):
     opt = '-O1' if tier == 'quick' else '-O3'
     def cq(name, desc, defs, ll, timeout=1200):
         return Q(name, 'c08.c', 'forall pairs of secrets (key, tweak, counter, data, whole prior context) with equal public parameters: ' + desc + ' - identical branch and address event traces [clang %s IR]' % opt,
-                 defs=defs, ll=ll, timeout=timeout, fsarray=6100, replay='ir', mem_gb=16, unwind=1400, mem_est=4)
+                 defs=defs, ll=ll, timeout=timeout, fsarray=6100, replay='ir', mem_gb=16, unwind=1400, mem_est=1.5)
     def ciph_ll(n): return [LL('src/%s-cipher.c' % n, flags=('-msse2',), ct=True, opt=opt)]
     # ---- single-block API
     for case0, n, blk, rr in ((0, 'skinny128', 16, (40, 48, 56)), (10, 'skinny64', 8, (32, 36, 40))):
@@ -70,7 +70,7 @@ def plan(tier):
         for ln in ((0, 3, blk) if tier == 'quick' else range(0, blk + 1)):
             qs.append(cq('ctr:%s:set_counter:%d' % (name, ln), 'set_counter(%d bytes) on the %s back end' % (ln, name), dict(base, CASE=32, LEN=ln), ll))
         if c != 3:
-            for kl in (blk, 3 * blk):
+            for kl in ((blk,) if tier == 'quick' else (blk, 3 * blk)):
                 qs.append(cq('ctr:%s:set_key:%d' % (name, kl), 'set_key(%d bytes) through the %s back end' % (kl, name), dict(base, CASE=33, KLEN=kl), ll))
             qs.append(cq('ctr:%s:set_tweak' % name, 'set_tweak through the %s back end (48/36-round tweaked schedule)' % name, dict(base, CASE=34, TLEN=blk, ROUNDS=(48 if c == 1 else 36)), ll))
         else:
